@@ -356,7 +356,7 @@ Definition tag_extract (tag : string) (lay : layout) (kvs : list (pyval * pyval)
 (* enum value lookup: self.val_map[val] *)
 Definition enum_lookup (ename : string) (members : list (string * pyval)) (x : pyval) : raw pyval :=
   if hashable x then
-    match find (fun m => py_eqb x (snd m)) members with
+    match find (fun m => lit_match x (snd m)) members with
     | Some (mname, mval) => ROk (VEnum ename mname mval)
     | None => RRaise EKeyError
     end
